@@ -707,6 +707,19 @@ impl Version {
     }
 }
 
+#[cfg(feature = "verif")]
+impl Version {
+    /// Verification hook: expose the private overlap test.
+    pub(crate) fn some_file_overlaps_range_for_verif(
+        disjoint_sorted_files: bool,
+        files: &[Arc<FileMetadata>],
+        smallest_user_key: Option<&[u8]>,
+        largest_user_key: Option<&[u8]>,
+    ) -> bool {
+        Version::some_file_overlaps_range(disjoint_sorted_files, files, smallest_user_key, largest_user_key)
+    }
+}
+
 /// Private methods
 impl Version {
     /**
